@@ -1,0 +1,13 @@
+// +build verif
+
+package main
+
+// VerifHook, when set, is called at the points marked with verifPoint:
+// a test harness uses it to record these points or to yield there.
+var VerifHook func(point string)
+
+func verifPoint(point string) {
+	if h := VerifHook; h != nil {
+		h(point)
+	}
+}
